@@ -325,6 +325,28 @@ fn check(case: &Case) -> Verdict {
         let direct: Vec<f64> = curve.ray_intersections(&nray).iter().map(|x| x.0).collect();
         ensure!(via == direct, "C06/curve_x_surface_point", "Curve2 x SurfacePoint2 gives {:?}, ray_intersections along the normal gives {:?}", via, direct);
     }
+    // history: a curve that has just been queried is replaced IN PLACE (same variable, same address) by a moved copy and
+    // asked the same line again; nothing remembered about the previous occupant may be reused.  The expected answers
+    // come from an independently held copy of the moved curve, computed before the sequence starts.
+    {
+        let iso = engeom::Iso2::new(Vector2::new(0.37 * scale + 0.5, -0.21 * scale - 0.25), 0.3);
+        let moved = curve.transformed_by(&iso);
+        let rays: Vec<Ray> = case.rays.iter().filter_map(|spec| build_ray(spec, &v, unit)).map(|(o, d)| Ray::new(o, d)).take(6).collect();
+        let expect: Vec<(Vec<(f64, usize)>, Option<(Point2, Vector2)>)> = rays.iter().map(|r| (moved.ray_intersections(r), moved.try_create_spanning_ray(r).map(|s| (s.ray().origin, s.ray().dir)))).collect();
+        let mut slot = curve.clone();
+        for (ray, (hits, span)) in rays.iter().zip(expect.iter()) {
+            slot = curve.clone();
+            let _ = slot.ray_intersections(ray);
+            let _ = slot.try_create_spanning_ray(ray);
+            slot = moved.clone();
+            let sr = slot.try_create_spanning_ray(ray).map(|s| (s.ray().origin, s.ray().dir));
+            ensure!(sr == *span, "C06/history/spanning_ray_of_previous_occupant", "after the curve was replaced in place by a moved copy, try_create_spanning_ray gives {:?}; an independent copy of the moved curve gives {:?}", sr, span);
+            let h = slot.ray_intersections(ray);
+            ensure!(h == *hits, "C06/history/intersections_of_previous_occupant", "after the curve was replaced in place, ray_intersections gives {:?}, an independent copy gives {:?}", h, hits);
+        }
+        let _ = &slot;
+        cx.label_if(!rays.is_empty(), "history_replaced_in_place");
+    }
     if nontrivial {
         cx.nontrivial();
     }
